@@ -185,7 +185,59 @@ func (w *World) applyImport(op Op) *Violation {
 	return nil
 }
 
-func (w *World) applySaveCS(op Op) *Violation { panic("not implemented") }
+// changeSetTable: the change sets offered by the alphabet (over the first two keys of the key set).
+func changeSetTable(keys [][]byte) [][]CSPair {
+	k0, k1 := keys[0], keys[len(keys)-1]
+	set := func(k []byte, v string) CSPair { return CSPair{K: k, V: []byte(v)} }
+	del := func(k []byte) CSPair { return CSPair{K: k, Del: true} }
+	return [][]CSPair{
+		{set(k0, "x")},
+		{del(k0)},
+		{set(k0, "y"), set(k1, "x")},
+		{del(k0), set(k1, "y")},
+		{set(k1, "x"), del(k1)},
+		{},
+	}
+}
+
+func (w *World) applySaveCS(op Op) *Violation {
+	t, m := w.Tree, w.M
+	var pairs []*iavl.KVPair
+	for _, p := range op.CS {
+		pairs = append(pairs, &iavl.KVPair{Delete: p.Del, Key: p.K, Value: p.V})
+	}
+	before := m.Latest
+	ver, err := t.SaveChangeSet(&iavl.ChangeSet{Pairs: pairs})
+	// model: apply in order; removal of a missing key rejects the change set
+	okAll := true
+	for _, p := range pairs {
+		if p.Delete {
+			if _, ok := m.Remove(p.Key); !ok {
+				okAll = false
+				break
+			}
+		} else {
+			m.Set(p.Key, p.Value)
+		}
+	}
+	if !okAll {
+		if err == nil {
+			return viol("changeset", "SaveChangeSet with a removal of a missing key was accepted (version %d)", ver)
+		}
+		if lv, _ := t.GetLatestVersion(); lv != before {
+			return viol("changeset", "rejected SaveChangeSet changed the latest version %d -> %d", before, lv)
+		}
+		return nil
+	}
+	_, mv, ok := m.SaveVersion()
+	if ok != (err == nil) {
+		return viol("changeset", "SaveChangeSet err=%v, model ok=%v", err, ok)
+	}
+	if ok && ver != mv {
+		return viol("changeset", "SaveChangeSet committed version %d, model %d", ver, mv)
+	}
+	return nil
+}
 
 func (w *World) applyExportOpen(op Op) *Violation {
 	it, err := w.Tree.GetImmutable(op.Ver)
